@@ -48,7 +48,17 @@ class Run:
         th = self.threads[i]
         th.sem.acquire()
         p = self.parsers[i]
-        lexer = p.lexer
+        lexer = getattr(p, "lexer", None)
+        if lexer is None or not callable(getattr(type(lexer), "scan", None)):
+            # no token seam in this tree: the parse runs as one atomic step
+            try:
+                ret = p.parse(self.texts[i])
+                th.result = ("ACC", canon.tree_of_result(p.result, self.ns)) if ret is True else (("REJ", p.error, p.error_pos) if ret is False else ("BADRET", repr(ret)))
+            except BaseException as e:  # noqa
+                th.result = ("EXC", "%s: %s" % (type(e).__name__, str(e)[:100]))
+            th.done = True
+            self.main.release()
+            return
         orig_scan = type(lexer).scan
         run = self
         budget = seams.step_budget(len(self.texts[i]))
